@@ -104,7 +104,7 @@ class C13(Spec):
     component = 'slist'
     driver = 'slist'
     lib_srcs = ['slist.c']
-    header_words = ('keys', 'nlists')
+    header_words = ('keys', 'nlists', 'cmpmode')
     rule = ('cases = corpus + one case per edge of the breadth-first closure of the Coq model over a small scope '
             '(shortest path to the state + the operation) + seeded random histories; a case is non-trivial when '
             'its model trace has at least two completed operations; distinct = distinct (header, operations) text')
@@ -165,6 +165,7 @@ class C13(Spec):
     def closure(self, tier):
         if tier == 'quick':
             cases, st = self.bfs([2, 100000, 0, 0, 1, 1])
+            cases += [Case(c.name + 'd', c.header + ['cmpmode 1'], c.ops, 'closure') for c in cases if any(o.startswith('sort') for o in c.ops)]
         else:
             cases, st = self.bfs([3, 1000000, 1, 0, 1, 0])
             c2, st2 = self.bfs([2, 1000000, 2, 0, 1, 0, 1])
@@ -217,7 +218,8 @@ class C13(Spec):
                         ref.L[r[1]] = sorted(ref.L[r[1]], key=ref.key)
                     ops.append(op)
                     break
-            cases.append(Case('rnd%d' % ci, ['keys ' + ' '.join(map(str, keys)), 'nlists %d' % nl], ops, 'random'))
+            cases.append(Case('rnd%d' % ci, ['keys ' + ' '.join(map(str, keys)), 'nlists %d' % nl,
+                                            'cmpmode %d' % rnd.randrange(3)], ops, 'random'))
         return cases
 
 
